@@ -43,3 +43,7 @@ pub assume_specification [std::path::Path::to_path_buf] (p: &Path) -> (r: PathBu
 pub assume_specification [str::trim] (s: &str) -> (r: &str);
 pub assume_specification [str::trim_end] (s: &str) -> (r: &str);
 pub assume_specification [str::trim_start] (s: &str) -> (r: &str);
+pub assume_specification<T, F> [std::option::Option::<T>::is_some_and] (o: std::option::Option<T>, f: F) -> (r: bool)
+    where F: FnOnce(T) -> bool + std::marker::Destruct
+    requires o is Some ==> f.requires((o->0,)),
+    ensures o is None ==> !r, o is Some ==> f.ensures((o->0,), r);
